@@ -347,7 +347,8 @@ def c07(chk):
             mu, V = sc.exact_arrays(it["st"])
             n = len(it["st"]["modes"])
             nb = max((V[i, i] + V[i + n, i + n] + mu[i] ** 2 + mu[i + n] ** 2) / 4 - 0.5 for i in range(n))
-            if (1 - a["trace"]) > 1e-9 and nb < 1e-9:
+            # (the deficit inherited from truncating an earlier, energetic state is not this operation's)
+            if (b["trace"] - a["trace"]) > 1e-9 and nb < 1e-9 and abs(nbar(b)) < 1e-9:
                 chk.violation("TraceLostWithoutEnergy", f, {"config": cfg, "program": short(it["hist"]), "trace": a["trace"]})
     run_models(chk, chk.tier, want)
 
